@@ -9,7 +9,8 @@ for mp in sorted(glob.glob(os.path.join(V, "seeded", "*", "meta.json"))):
     det = m.get("detected_by", [])
     own = m["property"]
     first = m.get("initial_detected_by", det)
-    caught = "yes" if own in det and own in first else ("yes, after strengthening" if own in det else "MISSED")
+    caught = "yes" if own in det and own in first else ("yes, after strengthening" if own in det else
+        ("no - outside the property's space (see note)" if m.get("out_of_scope") else "MISSED"))
     rows.append((m["seed"], own, "yes" if m.get("confirmed") else "NO", caught,
         ", ".join(d for d in det if d != own) or "-", (m.get("summary") or "")[:160].replace("|", "/"),
         (m.get("needs") or "")[:140].replace("|", "/"), (m.get("note") or "").replace("|", "/")))
